@@ -14,6 +14,9 @@ inductive Mode where | c01 | c09 | c02 deriving BEq
 structure DState where
   prog : Prog := []
   s : State := {}
+  /-- (effect, its run count when it was last paused): an effect that has not run since it was paused is
+  excused from the convergence oracle (changes made during a pause are documented as not replayed) -/
+  pausedAt : List (Nat × Nat) := []
 
 def parseInt (t : String) : Option Int :=
   if t.startsWith "-" then (t.drop 1).toNat?.map fun n => -(Int.ofNat n) else t.toNat?.map Int.ofNat
@@ -102,9 +105,16 @@ def effectRuns (p : Prog) (log : List Ev) : String :=
     | _ => acc) []
   ";".intercalate (runs.map fun (i, vs) => s!"{i}:" ++ ",".intercalate (vs.map toString))
 
-def idleVerdict (p : Prog) (s : State) : Option String :=
+def wokeList (log : List Ev) : List Nat :=
+  log.filterMap fun e => match e with | .woke i => some i | _ => none
+
+def idleVerdict (p : Prog) (s : State) (pausedAt : List (Nat × Nat)) : Option String :=
   if !(ready s).isEmpty || !untrackedFree p then none else
-  let effs := (List.range p.length).filter fun i => match p[i]? with | some (.eff _) => true | _ => false
+  -- disposed effects need not be current; effects that are or were paused are excused (changes made
+  -- during a pause are documented as not replayed) — the driver tracks that in `everPaused` = `first` reuse is avoided:
+  let effs := (List.range p.length).filter fun i =>
+    (match p[i]? with | some (.eff _) => true | _ => false) && (s.get i).alive && !(s.get i).paused
+      && !(pausedAt.any fun (e, r) => e == i && (s.get i).runs == r)
   let bad := effs.findSome? fun e =>
     let n := s.get e
     if n.runs == 0 then some "fail never-ran"
@@ -131,8 +141,8 @@ def afterOp (m : Mode) (d : DState) (read : Option (Nat × Int)) : String :=
       | none => "ok"
     "runs=" ++ ",".intercalate (runs.map fun (i, c) => s!"{i}:{c}") ++ " ## " ++ verdict
   | .c02 =>
-    let base := "eruns=" ++ effectRuns d.prog s.log ++ " ready=" ++ showIds (ready s)
-    match idleVerdict d.prog s with
+    let base := "eruns=" ++ effectRuns d.prog s.log ++ " woke=" ++ showIds (wokeList s.log) ++ " ready=" ++ showIds (ready s)
+    match idleVerdict d.prog s d.pausedAt with
     | some v => base ++ " ## " ++ v
     | none => base
 
@@ -162,6 +172,17 @@ def stepLine (m : Mode) (d : DState) (line : String) : DState × String :=
       if wfNode d.prog d.prog.length (.eff b) then
         let d := { d with prog := d.prog ++ [.eff b], s := { d.s with nodes := d.s.nodes ++ [initNode (.eff b)] } }
         (d, if m == .c02 then "ok ready=" ++ showIds (ready d.s) else "ok")
+      else (d, "bad-op")
+    | none => (d, "bad-op")
+  | "reff" :: toks =>
+    match parseBody toks with
+    | some b =>
+      if wfNode d.prog d.prog.length (.eff b) then
+        let e := d.prog.length
+        let d := { d with prog := d.prog ++ [.eff b], s := { d.s with nodes := d.s.nodes ++ [initNode (.eff b)] } }
+        let d := clearLog d
+        let d := { d with s := initRenderEffect d.prog d.s e }
+        (d, if m == .c02 then "ok " ++ afterOp m d none else if m == .c09 then afterOp m d none else "ok")
       else (d, "bad-op")
     | none => (d, "bad-op")
   | ["set", id, v] =>
@@ -198,6 +219,21 @@ def stepLine (m : Mode) (d : DState) (line : String) : DState × String :=
     let d := clearLog d
     let d := { d with s := (step d.prog d.s .idle).1 }
     (d, afterOp m d none)
+  | [op, e] =>
+    if op == "pause" || op == "resume" || op == "dispose" then
+      match e.toNat? with
+      | some e =>
+        match d.prog[e]? with
+        | some (.eff _) =>
+          let d := clearLog d
+          let o : Op := if op == "pause" then .pause e else if op == "resume" then .resume e else .dispose e
+          let d := { d with s := (step d.prog d.s o).1 }
+          let d := if op == "pause" then
+              { d with pausedAt := (e, (d.s.get e).runs) :: d.pausedAt.filter (fun x => x.1 != e) } else d
+          (d, afterOp m d none)
+        | _ => (d, "bad-op")
+      | none => (d, "bad-op")
+    else (d, "bad-op")
   | _ => (d, "bad-op")
 
 end Leptos.Reactive
